@@ -7,3 +7,9 @@ namespace verif {
 namespace verif {
     void (*evalHook)(const Position& pos, int whiteContempt, int score) = nullptr;
 }
+namespace verif {
+    void (*syncHook)(int point) = nullptr;
+    void (*evtHook)(const char* name, const void* obj, long a, long b) = nullptr;
+    long long (*clockHook)() = nullptr;
+    void (*nodeHook)() = nullptr;
+}
